@@ -151,6 +151,63 @@ func (r *vRecorder) Send(pid *actor.PID, msg any, sender *actor.PID) {
 
 var vKnownIDs = map[string]bool{}
 
+// a live stream writer of the receiving node (what exists as soon as the node has sent anything to a peer):
+// a network peer can name its id as a target like any other. Its Invoke runs on an inbox goroutine; a panic
+// there would end the process, so the wrapper records it instead.
+type vSysWriterProc struct {
+	*streamWriter
+	log        *vLog
+	mu         sync.Mutex
+	sent, done int
+	panicked   bool
+}
+
+const vSysWriterID = "stream/sys:1"
+
+func (w *vSysWriterProc) Start() { w.streamWriter.inbox.Start(w) }
+func (w *vSysWriterProc) Send(pid *actor.PID, msg any, sender *actor.PID) {
+	w.log.mu.Lock()
+	w.log.dls = append(w.log.dls, vDelivery{pid, sender, msg})
+	w.log.mu.Unlock()
+	w.mu.Lock()
+	w.sent++
+	w.mu.Unlock()
+	w.streamWriter.Send(pid, msg, sender)
+}
+func (w *vSysWriterProc) Invoke(msgs []actor.Envelope) {
+	defer func() {
+		v := recover()
+		w.mu.Lock()
+		if v != nil {
+			w.panicked = true
+		}
+		w.done += len(msgs)
+		w.mu.Unlock()
+	}()
+	w.streamWriter.Invoke(msgs)
+}
+
+// settle waits until the writer has handled what it was sent and reports whether it panicked since the last call.
+func (w *vSysWriterProc) settle() bool {
+	deadline := time.Now().Add(3 * time.Second)
+	for time.Now().Before(deadline) {
+		w.mu.Lock()
+		ok := w.done >= w.sent
+		w.mu.Unlock()
+		if ok {
+			break
+		}
+		time.Sleep(time.Millisecond)
+	}
+	w.mu.Lock()
+	defer w.mu.Unlock()
+	p := w.panicked
+	w.panicked = false
+	return p
+}
+
+var vSysWriter *vSysWriterProc
+
 var (
 	vOnce   sync.Once
 	vEngine *actor.Engine
@@ -172,6 +229,12 @@ func vSetup(t testing.TB) {
 				e.SpawnProc(&vRecorder{pid: actor.NewPID(e.Address(), p.id), log: vTheLog})
 			}
 		}
+		sw := newStreamWriter(e, actor.NewPID("local", "router"), "sys:1", nil, 0).(*streamWriter)
+		sw.stream = &vStream{}
+		sw.rawconn = vConn{}
+		vSysWriter = &vSysWriterProc{streamWriter: sw, log: vTheLog}
+		vKnownIDs[vSysWriterID] = true
+		e.SpawnProc(vSysWriter)
 	})
 	vTheLog.mu.Lock()
 	vTheLog.dls = nil
@@ -424,6 +487,9 @@ func runHostile(t testing.TB, e *Envelope) string {
 	}
 	fs := &vStream{queue: []*Envelope{e}}
 	out := vReadAll(fs)
+	if vSysWriter.settle() {
+		out = "panic-in-stream-writer(" + out + ")" // on an inbox goroutine: the node would have exited
+	}
 	vTheLog.mu.Lock()
 	defer vTheLog.mu.Unlock()
 	ss := make([]string, len(vTheLog.dls))
@@ -491,6 +557,10 @@ func genHostile(r *vgen.Rng) *Envelope {
 		}
 	}
 	for i := 0; i < ng; i++ {
+		if r.Chance(1, 8) { // one of the node's own system processes: a live stream writer
+			e.Targets = append(e.Targets, actor.NewPID("local", vSysWriterID))
+			continue
+		}
 		e.Targets = append(e.Targets, vMkPid(r.Intn(len(vPidPool))))
 	}
 	for i := 0; i < ns; i++ {
